@@ -142,6 +142,11 @@ def entries(seed, premade=None):
             ('VMFMMTrainer', d.VMFMMTrainer, yr, dict(min_concentration=2.0, max_concentration=50.0))):
         reg(f'{nm}.fit[hard start, options]', mk_fit(fac, 'fit', extra=extra), data, hard, sal)
         reg(f'{nm}.fit_predict[hard start, options]', mk_fit(fac, 'fit_predict', extra=extra), data, hard, sal)
+    # a start that is not normalised over the classes (raw scores): it is the caller's array and stays as it is
+    raw = init * (0.5 + 2.0 * A.rng(seed, 'c20raw').uniform(size=init.shape[:1] + (1,) + init.shape[2:]))
+    for nm, fac, data in (('CACGMMTrainer', d.CACGMMTrainer, y), ('CWMMTrainer', d.CWMMTrainer, y),
+                          ('GMMTrainer', d.GMMTrainer, yr), ('VMFMMTrainer', d.VMFMMTrainer, yr)):
+        reg(f'{nm}.fit[start not normalised over the classes]', mk_fit(fac, 'fit'), data, raw, sal)
     for nm, fac in (('GCACGMMTrainer', d.GCACGMMTrainer), ('VMFCACGMMTrainer', d.VMFCACGMMTrainer)):
         reg(f'{nm}.fit[hard start, options]', mk_fit(fac, 'fit', integ=True, extra=dict(
             affiliation_eps=1e-3, weight_constant_axis=(-3,), spatial_weight=0.5)), y, emb, hard, sal)
@@ -372,6 +377,15 @@ def entries(seed, premade=None):
     kft5[:, 3] = kft5[::-1, 3]
     reg('DHTV[F=5].__call__', lambda args: pa.DHTVPermutationAlignment(
         stft_size=8, segment_start=1, segment_width=2, segment_shift=1, main_iterations=3, sub_iterations=2)(args[0]), kft5)
+    # masks whose rows already have unit norm over time (a normalisation that is skipped must not turn the caller's
+    # mask into the work buffer); bin 3 needs a swap
+    kft5n = kft5 / np.linalg.norm(kft5, axis=-1, keepdims=True)
+    for metric in ('cos', 'euclidean'):
+        reg(f'DHTV[F=5,{metric}].calculate_mapping[unit-norm rows]', (lambda metric: lambda args: pa.DHTVPermutationAlignment(
+            stft_size=8, segment_start=1, segment_width=2, segment_shift=1, main_iterations=3, sub_iterations=2,
+            similarity_metric=metric).calculate_mapping(args[0]))(metric), kft5n)
+        reg(f'Greedy[{metric}].__call__[unit-norm rows]', (lambda metric: lambda args: pa.GreedyPermutationAlignment(
+            similarity_metric=metric)(args[0]))(metric), kft5n)
     reg('Oracle[cos].__call__[other reference]', lambda args: pa.OraclePermutationAlignment('cos', 'greedy')(
         args[0], args[1]), kft[:, ::-1], kft_ref[:, ::-1])
     reg('get_power_spectral_density_matrix[dims]', lambda args: bf.get_power_spectral_density_matrix(
